@@ -5,6 +5,8 @@ from fractions import Fraction
 
 import numpy as np
 
+from .. import shapes as S
+
 from ..core import fmt_list, parse_rats, frac, err_kind, close, exact, floats
 
 ID = "C12"
@@ -46,8 +48,8 @@ def run_impl(c):
     from traffic_weaver.process import repeat
     from traffic_weaver import Weaver
     x, y = V(c)
-    xa = np.array([int(v) for v in x]) if c["int"] else np.array(floats(x))
-    ya = np.array(floats(y))
+    xa = S.arr([int(v) for v in x]) if c["int"] else S.arr(floats(x))
+    ya = S.arr(floats(y))
     try:
         if c["via"] == "process":
             rx, ry = repeat(xa, ya, c["r"])
